@@ -55,6 +55,8 @@ structure SInfo where
   hasContent : Bool       -- encapContentInfo.eContent present
   encodable : Bool        -- signed attributes / OIDs / SPKI re-encode
   sigOk : Bool            -- CMS signature verifies under the selected certificate's key
+  sigAlgSupported : Bool := true
+                          -- `validator_for_sig_and_hash_algs(key algorithm, digestAlgorithm)` is `Some`
   notBefore : Int
   notAfter : Int
   margin : Int            -- `tst_accuracy_seconds`
@@ -127,6 +129,11 @@ def trustCheck (s : SInfo) (pre : List Entry) : Option Step :=
   else if !s.trusted then some (.fail .untrusted (pre ++ [info cTsUntrusted]))
   else none
 
+/-- `validate_timestamp_sig(..).is_ok()`: a validator exists for the (key algorithm, digest
+algorithm) pair **and** it accepts the signature; `Err(UnsupportedAlgorithm)` (no validator) and
+`Err(InvalidData)` (signature mismatch) are both rejections. -/
+def sigVerified (s : SInfo) : Bool := s.sigAlgSupported && s.sigOk
+
 /-- One iteration of the `for signer_info in …` loop of `verify_time_stamp`. -/
 def step (data : Msg) (verifyTrust : Bool) (s : SInfo) : Step :=
   if !s.certFound then .fail .untrusted [info cTsUntrusted]
@@ -136,7 +143,7 @@ def step (data : Msg) (verifyTrust : Bool) (s : SInfo) : Step :=
   | none =>
     if !s.encodable then .fail .decode [info cMalformed]
     else if !s.signedAttrs && !s.hasContent then .fail .decode [info cMalformed]
-    else if !s.sigOk then .fail .untrusted [info cTsUntrusted]
+    else if !sigVerified s then .fail .untrusted [info cTsUntrusted]
     else if !withinValidity s then .fail .expiredCertificate [info cOutside]
     else if !s.imprintAlgKnown then .fail .unsupportedAlgorithm [info cTsUntrusted]
     else if s.imprint != data then .fail .invalidData [info cMismatch]
@@ -333,8 +340,9 @@ def parseSInfo (s : String) : Option SInfo :=
   match s.splitOn "/" with
   | [fl, g, a, md, nb, na, mg, im, pl] =>
     match fl.toList.map parseBool with
-    | [f0, f1, f2, f3, f4, f5, f6, f7, f8, f9, f10] =>
-      some { certFound := f0, tstOk := f1, genTime := parseInt g, signedAttrs := f2,
+    | f0 :: f1 :: f2 :: f3 :: f4 :: f5 :: f6 :: f7 :: f8 :: f9 :: f10 :: more =>
+      if more.length > 1 then none else
+      some { sigAlgSupported := more.head?.getD true, certFound := f0, tstOk := f1, genTime := parseInt g, signedAttrs := f2,
              attrTime := parseOptInt a, md := parseMd md, digestAlgKnown := f3, hasContent := f4,
              encodable := f5, sigOk := f6, notBefore := parseInt nb, notAfter := parseInt na,
              margin := parseInt mg, imprintAlgKnown := f7, imprint := parseMsg im,
